@@ -66,9 +66,9 @@ pub fn plan_for(prop: &str, tier: &str) -> Plan {
         }
         "C04" => {
             p.scenarios = if q {
-                sc(&[("repl", 1), ("repl-i1-sz", 1), ("crash3", 1), ("crash2-async", 1), ("crash2-async-loose", 1), ("member-joint", 1), ("member", 1), ("fig8", 1)])
+                sc(&[("repl", 1), ("repl-i1-sz", 1), ("crash3", 1), ("crash2-async", 1), ("crash2-async-loose", 1), ("relead5", 1), ("relead5", 2), ("member-joint", 1), ("member", 1), ("fig8", 1)])
             } else {
-                sc(&[("repl", 1), ("repl-i1-sz", 1), ("crash3", 1), ("crash2-async", 1), ("crash2-async-loose", 1), ("member-joint", 1), ("member", 1), ("fig8", 1), ("repl-async", 1), ("repl-gc", 1), ("repl", 2), ("crash3-async", 1), ("member-joint", 2), ("member", 2), ("crash3-async-loose", 1), ("repl", 3)])
+                sc(&[("repl", 1), ("repl-i1-sz", 1), ("crash3", 1), ("crash2-async", 1), ("crash2-async-loose", 1), ("relead5", 1), ("relead5", 2), ("member-joint", 1), ("member", 1), ("fig8", 1), ("repl-async", 1), ("repl-gc", 1), ("repl", 2), ("crash3-async", 1), ("member-joint", 2), ("member", 2), ("crash3-async-loose", 1), ("repl", 3)])
             };
             p.required_stats = vec![Stat::CommitAdvances, Stat::Crashes];
             p.explanation = "explicit-state exploration; at every leader commit advance: entry of own term and durable (on the simulated disks, not in raft-rs bookkeeping) on a majority of each half of the leader's configuration; non-leader commit never beyond a leader's".into();
@@ -84,18 +84,18 @@ pub fn plan_for(prop: &str, tier: &str) -> Plan {
         }
         "C06" => {
             p.scenarios = if q {
-                sc(&[("crash2", 1), ("crash3", 1), ("crash2-async", 1), ("crash2-async-loose", 1), ("elect-stale-nosync", 0), ("stale", 1), ("stale-lazy", 0), ("stale-async", 0), ("crash3-lazy", 1)])
+                sc(&[("crash2", 1), ("crash3", 1), ("crash2-async", 1), ("crash2-async-loose", 1), ("elect-stale-nosync", 0), ("stale", 0), ("stale-lazy", 0), ("stale-async", 0), ("crash3-lazy", 1)])
             } else {
-                sc(&[("crash2", 1), ("crash3", 1), ("crash2-async", 1), ("crash2-async-loose", 1), ("elect-stale-nosync", 0), ("stale", 1), ("stale-lazy", 0), ("stale-async", 0), ("crash3-lazy", 1), ("crash2", 3), ("crash3", 2), ("stale-lazy", 1), ("stale-async", 1), ("crash3-async", 1), ("crash2-async-loose", 2), ("elect", 2), ("crash3", 3)])
+                sc(&[("crash2", 1), ("crash3", 1), ("crash2-async", 1), ("crash2-async-loose", 1), ("elect-stale-nosync", 0), ("stale", 0), ("stale-lazy", 0), ("stale-async", 0), ("crash3-lazy", 1), ("crash2", 3), ("crash3", 2), ("stale-lazy", 1), ("stale-async", 1), ("crash3-async", 1), ("crash2-async-loose", 2), ("elect", 2), ("crash3", 3)])
             };
             p.required_stats = vec![Stat::MsgsReleased, Stat::AcksReleased, Stat::VotesGranted, Stat::Crashes, Stat::Restarts];
             p.explanation = "explicit-state exploration over every crash point of the Ready round (after ready(), after k of the writes, after fsync, after persisted sends, after advance) in sync, async and lazy application modes; every released message checked against the node's durable disk at release time; one vote per term across incarnations; term monotone".into();
         }
         "C07" => {
             p.scenarios = if q {
-                sc(&[("crash2", 1), ("crash2-lag", 1), ("crash2-page", 1), ("crash2-async", 1), ("crash2-async-loose", 1), ("elect-stale", 0), ("fig8-div", 1), ("repl-div", 1), ("snap", 1), ("crash3", 1), ("repl", 1)])
+                sc(&[("crash2", 1), ("crash2-lag", 1), ("crash2-page", 1), ("crash2-async", 1), ("crash2-async-loose", 1), ("elect-stale", 0), ("fig8-div", 1), ("repl-div", 1), ("repl-mix-unp", 1), ("snap", 1), ("crash3", 1), ("repl", 1)])
             } else {
-                sc(&[("crash2", 1), ("crash2-lag", 1), ("crash2-page", 1), ("crash2-async", 1), ("crash2-async-loose", 1), ("elect-stale", 0), ("fig8-div", 1), ("repl-div", 1), ("snap", 1), ("crash3", 1), ("repl", 1), ("crash3-lag", 1), ("crash3-page", 1), ("crash3-unp", 1), ("crash3-lazy", 1), ("crash2", 3), ("snap", 2), ("crash3-async", 1), ("crash3", 2)])
+                sc(&[("crash2", 1), ("crash2-lag", 1), ("crash2-page", 1), ("crash2-async", 1), ("crash2-async-loose", 1), ("elect-stale", 0), ("fig8-div", 1), ("repl-div", 1), ("repl-mix-unp", 1), ("snap", 1), ("crash3", 1), ("repl", 1), ("crash3-lag", 1), ("crash3-page", 1), ("crash3-unp", 1), ("crash3-lazy", 1), ("crash2", 3), ("snap", 2), ("crash3-async", 1), ("crash3", 2)])
             };
             p.required_stats = vec![Stat::ReadyChecked, Stat::EntriesApplied, Stat::HasReadyCloneChecks, Stat::Truncations];
             p.explanation = "explicit-state exploration of every legal RawNode call history (advance | advance_append | advance_append_async + on_persist_ready in any batching, apply lag, pagination, truncation, snapshot, restart); application-side cursor model of the entries / hard state / committed-entries hand-off; has_ready() compared with ready() on a clone in every state".into();
@@ -111,7 +111,7 @@ pub fn plan_for(prop: &str, tier: &str) -> Plan {
         }
         "C09" => {
             p.scenarios = if q {
-                sc(&[("member-joint", 1), ("member-rm1", 1), ("member", 1), ("member-eager", 1), ("member-mix", 0)])
+                sc(&[("member-joint", 1), ("member-rm1", 0), ("member", 1), ("member-eager", 1), ("member-mix", 0)])
             } else {
                 sc(&[("member-joint", 1), ("member-rm1", 1), ("member-mix", 1), ("member", 1), ("member-eager", 1), ("member-joint", 2), ("member", 2), ("member-rm1", 2), ("member", 3), ("member-async", 1), ("member-mix", 2)])
             };
@@ -168,9 +168,9 @@ pub fn plan_for(prop: &str, tier: &str) -> Plan {
         }
         "C20" => {
             p.scenarios = if q {
-                sc(&[("elect", 1), ("fig8-div", 1), ("crash2", 1), ("crash2-async", 1), ("crash2-async-loose", 1), ("member-rm1", 1), ("member-joint", 1), ("lease", 1), ("snap", 0), ("snap-lazy", 0), ("snap-lag", 0), ("xfer-pipe", 0), ("read", 1), ("stale", 0), ("stale-lazy", 0), ("stale-async", 0), ("repl-i1-sz", 1), ("repl-mix", 0), ("xfer", 0), ("xfer-abort", 0), ("flow", 0), ("flow-cap", 0), ("member", 0)])
+                sc(&[("elect", 1), ("fig8-div", 1), ("crash2", 1), ("crash2-async", 1), ("crash2-async-loose", 1), ("member-rm1", 0), ("member-joint", 1), ("lease", 1), ("snap", 0), ("snap-lazy", 0), ("snap-lag", 0), ("xfer-pipe", 0), ("read", 1), ("stale", 0), ("stale-lazy", 0), ("stale-async", 0), ("repl-i1-sz", 1), ("repl-mix", 0), ("xfer", 0), ("xfer-abort", 0), ("flow", 0), ("flow-cap", 0), ("member", 0)])
             } else {
-                sc(&[("elect", 1), ("fig8-div", 1), ("crash2", 1), ("crash2-async", 1), ("crash2-async-loose", 1), ("member-rm1", 1), ("member-joint", 1), ("lease", 1), ("snap", 0), ("snap-lazy", 0), ("snap-lag", 0), ("xfer-pipe", 0), ("read", 1), ("stale", 0), ("stale-lazy", 0), ("stale-async", 0), ("repl-i1-sz", 1), ("repl-mix", 0), ("xfer", 0), ("xfer-abort", 0), ("flow", 0), ("flow-cap", 0), ("member", 0), ("member-rm1-lazy", 1), ("member-rm1-async", 1), ("member-mix", 1), ("crash3", 1), ("repl-batch", 1), ("snap", 1), ("stale-lazy", 1), ("stale-async", 1), ("member", 1), ("crash3-lazy", 1), ("crash2-async-loose", 2), ("crash3-async", 1), ("fig8", 1), ("xfer", 1), ("flow", 1)])
+                sc(&[("elect", 1), ("fig8-div", 1), ("crash2", 1), ("crash2-async", 1), ("crash2-async-loose", 1), ("member-rm1", 0), ("member-joint", 1), ("lease", 1), ("snap", 0), ("snap-lazy", 0), ("snap-lag", 0), ("xfer-pipe", 0), ("read", 1), ("stale", 0), ("stale-lazy", 0), ("stale-async", 0), ("repl-i1-sz", 1), ("repl-mix", 0), ("xfer", 0), ("xfer-abort", 0), ("flow", 0), ("flow-cap", 0), ("member", 0), ("member-rm1-lazy", 1), ("member-rm1-async", 1), ("member-mix", 1), ("crash3", 1), ("repl-batch", 1), ("snap", 1), ("stale-lazy", 1), ("stale-async", 1), ("member", 1), ("crash3-lazy", 1), ("crash2-async-loose", 2), ("crash3-async", 1), ("fig8", 1), ("xfer", 1), ("flow", 1)])
             };
             p.required_stats = vec![Stat::BadMsgOffered, Stat::ReadyChecked, Stat::MsgsReleased];
             p.explanation = "every API call of every explored execution runs under catch_unwind: a panic, failed assert!/debug_assert!, fatal!, index out of bounds or arithmetic overflow (debug-assertions and overflow-checks are on) is a violation; in every state local-only message types and responses from non-members are offered to step() on a clone and must be rejected with the documented error without changing the state digest".into();
